@@ -604,7 +604,7 @@ pub fn c06_only(ix: &Index, only: &dyn Fn(&MAtt) -> bool) -> Vec<Viol> {
 fn c06_impl(ix: &Index, only: Option<&dyn Fn(&MAtt) -> bool>) -> Vec<Viol> {
     let mut out = Vec::new();
     let h = ix.h;
-    if names_ambiguous(h) || h.limit_hit {
+    if names_ambiguous(h) {
         return out;
     }
     let mut keys: HashMap<&str, Vec<Loc>> = HashMap::new();
@@ -786,7 +786,7 @@ fn c06_impl(ix: &Index, only: Option<&dyn Fn(&MAtt) -> bool>) -> Vec<Viol> {
             };
             let cancelled = ix.root_cancelled(unit);
             let default_cancel = !h.cancelable && !root.cancel_t.is_empty();
-            let must = before_root && scope_before && target_delivered == ncopies && !cancelled && a.t.1 < target_fin.0.max(a.t.1 + 1);
+            let must = before_root && scope_before && target_delivered == ncopies && !cancelled && a.t.1 < target_fin.0.max(a.t.1 + 1) && !h.overflow_atts.contains(&ai);
             if ncopies > 1 && a.route != Route::Creation {
                 // known-finding shape: several copies of the target inside one collection unit
                 let total = here.len();
@@ -945,6 +945,17 @@ pub fn c10(ix: &Index) -> Vec<Viol> {
             }
         }
     }
+    // property locations (span properties only; properties of events are not probes)
+    let mut prop_loc: HashMap<&str, Vec<(&str, u128, u64)>> = HashMap::new();
+    for b in &h.batches {
+        for r in &b.records {
+            for (k, _) in &r.properties {
+                if k.starts_with("probe-k") {
+                    prop_loc.entry(k.as_ref()).or_default().push((r.name.as_ref(), r.trace_id.0, r.span_id.0));
+                }
+            }
+        }
+    }
     for ((vt, ver), ps) in &groups {
         let base_ctx = *ver >= 1_000_000;
         for p in ps.iter() {
@@ -959,6 +970,9 @@ pub fn c10(ix: &Index) -> Vec<Viol> {
                 if ev_loc.contains_key(p.event_name.as_str()) {
                     out.push(v("C10", "inert-event", format!("vt{}: LocalSpan::add_event was delivered with no local parent in scope", vt)));
                 }
+                if prop_loc.contains_key(p.prop_key.as_str()) {
+                    out.push(v("C10", "inert-property", format!("vt{}: LocalSpan::add_property was delivered with no local parent in scope", vt)));
+                }
             }
         }
         let first = ps[0];
@@ -971,6 +985,13 @@ pub fn c10(ix: &Index) -> Vec<Viol> {
         };
         let ev_sig = |p: &Probe| -> Option<Vec<(&str, u128, u64)>> {
             ev_loc.get(p.event_name.as_str()).map(|l| {
+                let mut l = l.clone();
+                l.sort();
+                l
+            })
+        };
+        let prop_sig = |p: &Probe| -> Option<Vec<(&str, u128, u64)>> {
+            prop_loc.get(p.prop_key.as_str()).map(|l| {
                 let mut l = l.clone();
                 l.sort();
                 l
@@ -1004,6 +1025,14 @@ pub fn c10(ix: &Index) -> Vec<Viol> {
                             "C10",
                             "frame-event-target",
                             format!("{}: local events added in the same context were delivered on different records: {:?} vs {:?}", what, a, b),
+                        ));
+                    }
+                    let (a, b) = (prop_sig(first), prop_sig(p));
+                    if a != b {
+                        out.push(v(
+                            "C10",
+                            "frame-property-target",
+                            format!("{}: local properties added in the same context were delivered on different records: {:?} vs {:?}", what, a, b),
                         ));
                     }
                 }
@@ -2020,20 +2049,9 @@ fn exited_with_parked(h: &Hist, vt: usize) -> bool {
     }
 }
 
-pub fn c09(ix: &Index) -> Vec<Viol> {
-    let mut out = Vec::new();
-    let h = ix.h;
-    // (1) every call returns
-    for p in &h.panics {
-        out.push(v("C09", format!("panic:{}", p.op), format!("vt{}: {} panicked during an overload episode: {}", p.vt, p.op, p.msg)));
-    }
-    if names_ambiguous(h) {
-        return out;
-    }
-    // Overload windows per vthread: from the end of a ring-fill episode until the end of the first
-    // complete collector cycle that starts after it. Outside of these windows the ring cannot be
-    // full (programs push far fewer than 10240 commands), so a dropped command is a violation —
-    // decided from the schedule, not from what the push site reports about free slots.
+/// Overload windows per vthread: from the end of a ring-fill episode until the end of the first
+/// complete collector cycle that starts after it.
+fn overload_windows(h: &Hist) -> HashMap<usize, Vec<(T, T)>> {
     let mut windows: HashMap<usize, Vec<(T, T)>> = HashMap::new();
     for e in &h.hooks {
         if let (HookKind::Command { kind: "fill-done", .. }, Some(vt)) = (&e.kind, e.vt) {
@@ -2041,12 +2059,23 @@ pub fn c09(ix: &Index) -> Vec<Viol> {
             windows.entry(vt).or_default().push((e.t, end));
         }
     }
+    windows
+}
+
+/// "Omission only, and only what was submitted while the queue was full": commands dropped
+/// outside an overload window, and per record demanded <= delivered <= recorded. Returns the
+/// violations and the sets of roots whose start was dropped / whose finish signal was lost with
+/// an exiting thread (for the callers' further bookkeeping).
+pub fn omissions_only_permitted(ix: &Index, prop: &'static str) -> (Vec<Viol>, HashSet<usize>, HashSet<usize>) {
+    let mut out = Vec::new();
+    let h = ix.h;
+    let windows = overload_windows(h);
     let in_window = |vt: usize, t: T| windows.get(&vt).map_or(false, |ws| ws.iter().any(|(a, b)| t >= *a && t <= *b));
     for e in &h.hooks {
         if let (HookKind::PushOutcome { ok: false }, Some(vt)) = (&e.kind, e.vt) {
             if !in_window(vt, e.t) {
                 out.push(v(
-                    "C09",
+                    prop,
                     "dropped-while-queue-not-full",
                     format!("vt{}: a command was dropped at t={} although the thread's queue cannot be full (no fill episode since the last complete collector cycle)", vt, e.t),
                 ));
@@ -2057,26 +2086,10 @@ pub fn c09(ix: &Index) -> Vec<Viol> {
     for w in h.hooks.windows(2) {
         if let (HookKind::BeforePush { free, pending, .. }, HookKind::PushOutcome { ok: false }) = (&w[0].kind, &w[1].kind) {
             if *free > 0 && *pending == 0 && w[0].vt == w[1].vt {
-                out.push(v("C09", "dropped-with-free-slots", format!("a command was dropped although {} slots were free", free)));
+                out.push(v(prop, "dropped-with-free-slots", format!("a command was dropped although {} slots were free", free)));
             }
         }
     }
-    // (2) every delivered record is correct
-    out.extend(c02(ix, false).into_iter().map(|mut x| {
-        x.prop = "C09";
-        x.sig = format!("delivered-incorrect:{}", x.sig);
-        x
-    }));
-    out.extend(
-        c06(ix)
-            .into_iter()
-            .filter(|x| x.sig == "attached-to-wrong-record" || x.sig == "attachment-duplicated" || x.sig == "value-changed" || x.sig == "unknown-property" || x.sig == "unknown-event")
-            .map(|mut x| {
-                x.prop = "C09";
-                x.sig = format!("delivered-incorrect:{}", x.sig);
-                x
-            }),
-    );
     // (3) missing is a subset of permitted
     let mut unit_unstarted: HashSet<usize> = HashSet::new();
     let mut unit_commit_lost: HashSet<usize> = HashSet::new();
@@ -2141,20 +2154,53 @@ pub fn c09(ix: &Index) -> Vec<Viol> {
         let got = ix.by_name.get(name).map(|rs| rs.iter().filter(|r| r.1.trace_id.0 == *trace).count()).unwrap_or(0);
         if got < *must {
             out.push(v(
-                "C09",
+                prop,
                 "missing-not-permitted",
                 format!("record {:?} of trace {:#x}: {} copies were submitted successfully (queue not full) but only {} delivered", name, trace, must, got),
             ));
         }
         if got > *possible {
-            out.push(v("C09", "delivered-more-than-recorded", format!("record {:?} of trace {:#x} delivered {} times, recorded {}", name, trace, got, possible)));
+            out.push(v(prop, "delivered-more-than-recorded", format!("record {:?} of trace {:#x} delivered {} times, recorded {}", name, trace, got, possible)));
         }
     }
     for (name, recs) in &ix.by_name {
         if !ix.exp_by_name.contains_key(*name) && !name.starts_with("fill-") && *name != "f" {
-            out.push(v("C09", "delivered-unknown", format!("record {:?} ({} copies) corresponds to nothing the program recorded", name, recs.len())));
+            out.push(v(prop, "delivered-unknown", format!("record {:?} ({} copies) corresponds to nothing the program recorded", name, recs.len())));
         }
     }
+    (out, unit_unstarted, unit_commit_lost)
+}
+
+pub fn c09(ix: &Index) -> Vec<Viol> {
+    let mut out = Vec::new();
+    let h = ix.h;
+    // (1) every call returns
+    for p in &h.panics {
+        out.push(v("C09", format!("panic:{}", p.op), format!("vt{}: {} panicked during an overload episode: {}", p.vt, p.op, p.msg)));
+    }
+    if names_ambiguous(h) {
+        return out;
+    }
+    let windows = overload_windows(h);
+    let _ = &windows;
+    let (o3, unit_unstarted, unit_commit_lost) = omissions_only_permitted(ix, "C09");
+    out.extend(o3);
+    // (2) every delivered record is correct
+    out.extend(c02(ix, false).into_iter().map(|mut x| {
+        x.prop = "C09";
+        x.sig = format!("delivered-incorrect:{}", x.sig);
+        x
+    }));
+    out.extend(
+        c06(ix)
+            .into_iter()
+            .filter(|x| x.sig == "attached-to-wrong-record" || x.sig == "attachment-duplicated" || x.sig == "value-changed" || x.sig == "unknown-property" || x.sig == "unknown-event")
+            .map(|mut x| {
+                x.prop = "C09";
+                x.sig = format!("delivered-incorrect:{}", x.sig);
+                x
+            }),
+    );
     // (4) finish / cancel signals are neither dropped nor reordered while the thread lives
     let mut issued: HashMap<usize, Vec<(&'static str, usize)>> = HashMap::new();
     for e in &h.hooks {
@@ -2313,7 +2359,7 @@ pub fn c13(ix: &Index, prop: &'static str, sched: bool) -> Vec<Viol> {
         let want_kinds: &[AdapterKind] = if prop == "C13" {
             &[AdapterKind::InSpan, AdapterKind::EnterOnPoll, AdapterKind::InSpanEnterOnPoll]
         } else {
-            &[AdapterKind::Stream, AdapterKind::Sink]
+            &[AdapterKind::Stream, AdapterKind::Sink, AdapterKind::DuplexViaStream, AdapterKind::DuplexViaSink]
         };
         if !want_kinds.contains(&a.kind) {
             continue;
